@@ -86,6 +86,8 @@ pub const O_KARORDER: u16 = 1 << 8;
 pub const O_ANSI: u16 = 1 << 9;
 pub const O_SQ: u16 = 1 << 10;
 pub const O_ALL: u16 = (1 << 11) - 1;
+/// Options that only the fixed-layout method reads: bystanders for the phonetic method (they must not matter there).
+pub const O_FIXED_ONLY: u16 = O_FSUGG | O_VOWEL | O_CHANDRA | O_TKAR | O_REPH | O_NUMPAD | O_KARORDER;
 pub const OPT_NAMES: [&str; 11] = [
     "eng", "psugg", "fsugg", "vowel", "chandra", "tkar", "reph", "numpad", "karorder", "ansi", "sq",
 ];
